@@ -421,6 +421,9 @@ func init() {
 				{append([]byte{0x00}, forkSig...), append(append([]byte{0x51}, pk...), 0x51, 0xae)}, // 1-of-1, FORKID-typed signature
 				{[]byte{0x00, 0x00}, append(append(append([]byte{0x51}, pk...), pk...), 0x52, 0xae)},
 				{[]byte{0x00}, append(append([]byte{0x00}, pk...), 0x51, 0xaf, 0x51)}, // CHECKMULTISIGVERIFY
+				{append([]byte{0x00}, forkSig...), append(append([]byte{0x51}, pk...), 0x51, 0xaf, 0x51)},
+				{append([]byte{0x00}, gen.Push(append([]byte{0x30, 0x06, 0x02, 0x01, 0x01, 0x02, 0x01, 0x01}, 0x01))...), append(append(append([]byte{0x51}, pk...), gen.Push(c07Key2G)...), 0x52, 0xaf, 0x51)},
+				{gen.Push(append([]byte{0x30, 0x06, 0x02, 0x01, 0x01, 0x02, 0x01, 0x01}, 0x01)), append(append([]byte{}, pk...), 0xad, 0x51)}, // CHECKSIGVERIFY
 			}
 			tails := [][]byte{nil, {0x6a}, {0x6a, 0xff}, {0x6a, 0x01, 0x02}, {0x51}, {0x91}, {0xab, 0x51}, {0x75, 0x51, 0x6a, 0x42}}
 			flagSets := []uint32{0, uint32(scriptflag.UTXOAfterGenesis), uint32(scriptflag.UTXOAfterGenesis | scriptflag.EnableSighashForkID), uint32(scriptflag.VerifyNullFail | scriptflag.StrictMultiSig)}
@@ -433,7 +436,7 @@ func init() {
 								continue
 							}
 							l := append(append(append([]byte{}, pre...), m.l...), tl...)
-							judge(c, &c07Input{Unlock: m.u, Lock: l, Flags: fl, Mode: "tx", Dbg: []string{"none", "recording"}[n%2], Ctx: defaultCtx(), Src: "multisig-shapes"})
+							judge(c, &c07Input{Unlock: m.u, Lock: l, Flags: fl, Mode: c07Modes[int(n/2)%len(c07Modes)], Dbg: []string{"none", "recording"}[n%2], Ctx: defaultCtx(), Src: "multisig-shapes"})
 						}
 					}
 				}
